@@ -321,7 +321,9 @@ namespace cds { namespace gc {
             {
                 bool ret = push( *p );
                 CDS_HPSTAT( --retire_call_count_ );
-                assert( ret );
+                // push() returns false when it has filled the last cell of the last block:
+                // that is legal here (every retired pointer of a full array is still guarded)
+                assert( ret || ( current_block_->next_ == nullptr && current_cell_ == current_block_->last()));
                 return ret;
             }
 
